@@ -648,7 +648,7 @@ func (hc *connectUnaryHandlerConn) writeResponseHeader(err error) {
 	header := hc.responseWriter.Header()
 	if err != nil {
 		if connectErr, ok := asError(err); ok {
-			mergeHeaders(header, connectErr.meta)
+			mergeMetadataHeaders(header, connectErr.meta)
 		}
 	}
 	for k, v := range hc.responseTrailer {
